@@ -477,10 +477,14 @@ func (fr *Frame) unmarshal(p *preCall, withErr bool) Val {
 	v := fc.mkVal(elem, "("+un+" "+bz+")")
 	fc.assumeWF(v, p.reach)
 	if withErr {
-		e := fc.freshErr("uerr")
-		// on error the target is left in an unspecified state
-		junk := fc.B.Fresh("ujunk", s)
-		v.T = ite(eq(e.T, "0"), v.T, junk)
+		// whether decoding fails, and what a failed decoding leaves behind, are deterministic functions of the bytes
+		ef := "unmarshal_err_" + sanitize(s)
+		jf := "unmarshal_junk_" + sanitize(s)
+		fc.B.DeclFun(ef, []string{"String"}, "Int")
+		fc.B.DeclFun(jf, []string{"String"}, s)
+		e := Val{S: "Int", T: "(" + ef + " " + bz + ")", Typ: types.Universe.Lookup("error").Type()}
+		fc.B.Assert(and("(>= "+e.T+" 0)", implies(not(eq(e.T, "0")), and(not("(is_sentinel "+e.T+")"), not("(is_sentinel (err_root "+e.T+"))")))))
+		v.T = ite(eq(e.T, "0"), v.T, "("+jf+" "+bz+")")
 		fc.store(p.st, ptr, v)
 		return e
 	}
